@@ -4,16 +4,16 @@
 
 use crate::model::{Item, Node};
 
-fn sequences(budget: usize, depth: usize, out: &mut Vec<Vec<Node>>) {
+fn sequences(budget: usize, depth: usize, names: &[&str], out: &mut Vec<Vec<Node>>) {
     // all ordered sequences of child subtrees using at most `budget` nodes in total
     out.push(vec![]);
     if budget == 0 || depth == 0 {
         return;
     }
     for first_size in 1..=budget {
-        for first in nodes_exact(first_size, depth) {
+        for first in nodes_exact(first_size, depth, names) {
             let mut rest = Vec::new();
-            sequences(budget - first_size, depth, &mut rest);
+            sequences(budget - first_size, depth, names, &mut rest);
             for r in rest {
                 let mut v = vec![first.clone()];
                 v.extend(r);
@@ -24,15 +24,15 @@ fn sequences(budget: usize, depth: usize, out: &mut Vec<Vec<Node>>) {
 }
 
 /// all child subtrees with exactly `size` nodes and height <= depth
-fn nodes_exact(size: usize, depth: usize) -> Vec<Node> {
+fn nodes_exact(size: usize, depth: usize, names: &[&str]) -> Vec<Node> {
     let mut out = Vec::new();
     if size == 0 || depth == 0 {
         return out;
     }
     let mut seqs = Vec::new();
-    sequences(size - 1, depth - 1, &mut seqs);
+    sequences(size - 1, depth - 1, names, &mut seqs);
     for seq in seqs.into_iter().filter(|s| s.iter().map(|n| n.count_nodes()).sum::<usize>() == size - 1) {
-        for name in ["a", "b"] {
+        for name in names.iter().copied() {
             for attr in [false, true] {
                 for text in [false, true] {
                     let mut items: Vec<Item> = Vec::new();
@@ -50,9 +50,14 @@ fn nodes_exact(size: usize, depth: usize) -> Vec<Node> {
 
 /// all documents with root `r` and at most `max_nodes` elements (root included), depth <= 3
 pub fn documents(max_nodes: usize) -> Vec<Node> {
+    documents_over(max_nodes, &["a", "b"])
+}
+
+/// the same enumeration over another child-name alphabet (C04/C14: colliding and concatenating names)
+pub fn documents_over(max_nodes: usize, names: &[&str]) -> Vec<Node> {
     let mut out = Vec::new();
     let mut seqs = Vec::new();
-    sequences(max_nodes - 1, 2, &mut seqs);
+    sequences(max_nodes - 1, 2, names, &mut seqs);
     for seq in seqs {
         for attr in [false, true] {
             for text in [false, true] {
@@ -68,12 +73,43 @@ pub fn documents(max_nodes: usize) -> Vec<Node> {
     out
 }
 
+/// documents for counter / size thresholds: child `c` repeated n times inside one occurrence of `p`
+pub fn threshold_family(n: usize) -> Vec<Vec<Node>> {
+    let leaf = |name: &str| Node { name: name.to_string(), attrs: vec![], items: vec![] };
+    let el = |name: &str, kids: Vec<Node>| Node { name: name.to_string(), attrs: vec![], items: kids.into_iter().map(Item::Child).collect() };
+    let many = |name: &str, n: usize| -> Vec<Node> { (0..n).map(|_| leaf(name)).collect() };
+    let mut out: Vec<Vec<Node>> = Vec::new();
+    // one document, the repeated child in the second / first / middle occurrence of its parent
+    out.push(vec![el("r", vec![el("p", vec![leaf("c")]), el("p", many("c", n))])]);
+    out.push(vec![el("r", vec![el("p", many("c", n)), el("p", vec![leaf("c")])])]);
+    out.push(vec![el("r", vec![el("p", vec![leaf("c"), leaf("d")]), el("p", many("c", n)), el("p", vec![leaf("c"), leaf("d")])])]);
+    let mut mixed = many("c", n);
+    mixed.push(leaf("d"));
+    out.push(vec![el("r", vec![el("p", vec![leaf("c"), leaf("d")]), el("p", mixed.clone()), el("p", vec![leaf("d")])])]);
+    // across documents
+    out.push(vec![el("r", vec![leaf("c")]), el("r", many("c", n))]);
+    out.push(vec![el("r", many("c", n)), el("r", vec![leaf("c")]), el("r", vec![])]);
+    // n occurrences of the parent itself
+    let ps: Vec<Node> = (0..n).map(|i| el("p", if i % 2 == 0 { vec![leaf("c")] } else { vec![leaf("c"), leaf("d")] })).collect();
+    out.push(vec![el("r", ps)]);
+    let mut ps2: Vec<Node> = (0..n).map(|_| el("p", vec![leaf("c")])).collect();
+    ps2.push(el("p", vec![]));
+    out.push(vec![el("r", ps2)]);
+    out
+}
+
 /// enumerate all `arity`-tuples of documents and apply `oracle`; returns (sequences run, non-trivial ones, first failure)
 pub fn run_tuples<F>(max_nodes: usize, arity: usize, oracle: F) -> (u64, u64, Option<(String, Vec<String>)>)
 where
     F: Fn(&[&Node], &[Vec<u8>]) -> Result<bool, String> + Sync,
 {
-    let docs = documents(max_nodes);
+    run_tuples_over(documents(max_nodes), arity, oracle)
+}
+
+pub fn run_tuples_over<F>(docs: Vec<Node>, arity: usize, oracle: F) -> (u64, u64, Option<(String, Vec<String>)>)
+where
+    F: Fn(&[&Node], &[Vec<u8>]) -> Result<bool, String> + Sync,
+{
     let bytes: Vec<Vec<u8>> = docs.iter().map(|d| crate::xmlser::canonical(d).into_bytes()).collect();
     let n = docs.len();
     let total = (n as u64).pow(arity as u32);
